@@ -40,6 +40,19 @@ char *vs_strerror(int e) { static char b[256]; char tmp[256]; tmp[0] = 0;
 #endif
     snprintf(b, sizeof b, "%s", m); vs_point_user(31); return b; }
 
+/* libc's utmp reader: one file, one position and one name per process, shared by all threads and with the calling program (which may be in the
+ * middle of its own getutent() loop, or have another file selected with utmpname()).  The stand-ins forward to libc; the point is the counter
+ * (any use is residue in the caller's libc state) and the scheduling point between set / search / end. */
+#include <utmp.h>
+void vs_setutent(void) { setutent(); vs_point_user(32); }
+void vs_endutent(void) { endutent(); vs_point_user(33); }
+struct utmp *vs_getutent(void) { struct utmp *r = getutent(); vs_point_user(34); return r; }
+struct utmp *vs_getutline(const struct utmp *u) { struct utmp *r = getutline(u); vs_point_user(35); return r; }
+struct utmp *vs_getutid(const struct utmp *u) { struct utmp *r = getutid(u); vs_point_user(36); return r; }
+int vs_getutent_r(struct utmp *b, struct utmp **r) { int x = getutent_r(b, r); vs_point_user(37); return x; }
+int vs_getutline_r(const struct utmp *u, struct utmp *b, struct utmp **r) { int x = getutline_r(u, b, r); vs_point_user(38); return x; }
+int vs_getutid_r(const struct utmp *u, struct utmp *b, struct utmp **r) { int x = getutid_r(u, b, r); vs_point_user(39); return x; }
+
 /* tzset(): glibc runs it under its internal time-zone lock and, when TZ is unset, stats and re-reads /etc/localtime and calls the allocator
  * while holding that lock; fork() does not reset the lock in the child.  A thread inside tzset() therefore holds a libc lock across system
  * calls exactly like a thread inside the library's own lock window - but no atfork handler of the library covers it.  In the scheduler
